@@ -107,15 +107,15 @@ def f_each_job(shape, a):
     to that job; a['where'] restricts to jobs of a given scheduler"""
     byname = gen.nodes_of(shape)
     jobs = atomic_names(shape)
+    also = [tuple(m) for m in a.get('also', []) if m[0] in byname]
     for j in jobs:
         yield gen.apply_mods(shape, [(j, at, val) for at, val in a['mods']]
-                             + [tuple(m) for m in a.get('also', [])])
+                             + also)
     if a.get('pairs'):
         for j1, j2 in itertools.combinations(jobs, 2):
             yield gen.apply_mods(
                 shape, [(j, at, val) for j in (j1, j2)
-                        for at, val in a['mods']]
-                + [tuple(m) for m in a.get('also', [])])
+                        for at, val in a['mods']] + also)
 
 
 def f_each_node(shape, a):
